@@ -440,6 +440,20 @@ func (tb *TB) buildSystem(facts []Atom, at *ssa.BasicBlock, before ssa.Instructi
 							}
 						}
 					}
+				case "golang.org/x/crypto/curve25519.X25519":
+					// a successful X25519 returns a 32-byte point
+					if errNil(c) {
+						s.le("len("+sym+".0)", "0", 32)
+						s.le("0", "len("+sym+".0)", -32)
+					}
+				case "golang.org/x/crypto/scrypt.Key":
+					// a successful scrypt.Key returns keyLen bytes
+					if len(c.Call.Args) == 6 && errNil(c) {
+						if k, ok := constInt(c.Call.Args[5]); ok {
+							s.le("len("+sym+".0)", "0", k)
+							s.le("0", "len("+sym+".0)", -k)
+						}
+					}
 				case "invoke (crypto/cipher.AEAD).Overhead", "invoke (crypto/cipher.AEAD).NonceSize":
 					// every AEAD of the module is made by chacha20poly1305.New (R05 pins the call sites):
 					// 16-byte tag, 12-byte nonce
@@ -954,6 +968,9 @@ func (p *Program) BoundsOf(fn *ssa.Function) []*BoundOb {
 				// is known about the values (library contracts, lengths of fixed buffers)
 				if sy := tb.system(in); sy.implied("0", "0", -1) || fmInfeasible(sy.linCons()) {
 					ob.OK, ob.How = true, "unreachable: the guards in force contradict the known bounds of the values"
+				} else if tb.allEdgesInfeasible(x.Block()) {
+					// `a || b`: the block is entered from several tests, each of which cannot hold
+					ob.OK, ob.How = true, "unreachable: each of the tests leading here contradicts the known bounds of the values"
 				} else if how := tb.p.assertionHeldByCallers(fn, x); how != "" {
 					ob.OK, ob.How = true, how
 				} else if os.Getenv("AGECHECK_DEBUG_BOUNDS") != "" {
@@ -1564,7 +1581,28 @@ func (p *Program) aeadIsChaCha(v ssa.Value, d int) bool {
 	switch x := stripConv(v).(type) {
 	case *ssa.Extract:
 		c, ok := x.Tuple.(*ssa.Call)
-		return ok && x.Index == 0 && calleeName(&c.Call) == "golang.org/x/crypto/chacha20poly1305.New"
+		if !ok || x.Index != 0 {
+			return false
+		}
+		if calleeName(&c.Call) == "golang.org/x/crypto/chacha20poly1305.New" {
+			return true
+		}
+		// a helper of the module that hands on what chacha20poly1305.New returned
+		if callee := staticCallee(&c.Call); callee != nil && p.inModule(callee) && callee.Blocks != nil {
+			n := 0
+			for _, ret := range returnsOf(callee) {
+				rs := resultsOf(ret)
+				if len(rs) < 1 || isNilConst(rs[0]) {
+					continue
+				}
+				if !p.aeadIsChaCha(rs[0], d+1) {
+					return false
+				}
+				n++
+			}
+			return n > 0
+		}
+		return false
 	case *ssa.Phi:
 		for _, e := range x.Edges {
 			if !p.aeadIsChaCha(e, d+1) {
@@ -1597,4 +1635,30 @@ func (p *Program) aeadIsChaCha(v ssa.Value, d int) bool {
 		return true
 	}
 	return false
+}
+
+// allEdgesInfeasible: the block has several predecessors and the constraints in force on every
+// edge into it are contradictory.
+func (tb *TB) allEdgesInfeasible(b *ssa.BasicBlock) bool {
+	if len(b.Preds) < 2 {
+		return false
+	}
+	for _, pr := range b.Preds {
+		ok := false
+		for k, su := range pr.Succs {
+			if su != b {
+				continue
+			}
+			sy := tb.edgeSystem(pr, k)
+			s2 := &dsys{cons: append([]dcons(nil), sy.cons...), neq: append([]dcons(nil), sy.neq...), eqs: sy.eqs, ineqs: sy.ineqs, copies: sy.copies}
+			s2.tighten()
+			if s2.inconsistent() || fmInfeasible(s2.linCons()) {
+				ok = true
+			}
+		}
+		if !ok {
+			return false
+		}
+	}
+	return true
 }
